@@ -274,7 +274,8 @@ Fixpoint run_flows (n : Z) (sync : bool) (fs : flows) (es : list pentry) (k : Z)
 (* ---- the product (Model/Pipe.v): main batcher and all flows as ONE transition system -------------- *)
 (* the trace's main-batcher labels (Add, Commit, ...) and processor labels drive [gstep]; the theorems of
    Proofs/Pipe.v (F2 redundant, end-to-end frontier / order / conservation) are about exactly these runs *)
-Record pipes := { pp_cur : list (Z * Z); pp_g : gst }.   (* processor -> current stream; product state *)
+Record pipes := { pp_cur : list (Z * Z); pp_g : gst; pp_ic : list Z }.   (* processor -> current stream; product state; streams of the input commits seen *)
+Definition count_ic (s : Z) (l : list Z) : nat := length (filter (Z.eqb s) l).
 
 Fixpoint gsteps (c : cfg) (n : Z) (g : gst) (s : Z) (ls : list plabel) : option gst :=
   match ls with
@@ -290,7 +291,7 @@ Definition pipe_step (c : cfg) (n : Z) (ps : pipes) (e : pentry) : option pipes 
         if s <? 0 then None else
         match plabels_of (proc (gflow n (pp_g ps) s)) e with
         | Some ls => match gsteps c n (pp_g ps) s ls with
-                     | Some g' => Some {| pp_cur := (poi e, s) :: pp_cur ps; pp_g := g' |}
+                     | Some g' => Some {| pp_cur := (poi e, s) :: pp_cur ps; pp_g := g'; pp_ic := pp_ic ps |}
                      | None => None
                      end
         | None => None
@@ -301,12 +302,19 @@ Definition pipe_step (c : cfg) (n : Z) (ps : pipes) (e : pentry) : option pipes 
     match bentry_of e with
     | Some be => match elabel be with
                  | Some l => match gstep c n (pp_g ps) (GB l) with
-                             | Some g' => Some {| pp_cur := pp_cur ps; pp_g := g' |}
+                             | Some g' => Some {| pp_cur := pp_cur ps; pp_g := g'; pp_ic := pp_ic ps |}
                              | None => None
                              end
                  | None => Some ps
                  end
     | None => Some ps
+    end
+  else if (pok e =? 4) && (pk e =? 38) then
+    (* InputPlugin.Commit(stream a, seq b): the k-th input commit of a stream is the k-th commit of its flow, already made
+       (Controller.Commit is logged before pipeline.Commit runs): input commits = a prefix of the flow's commits, in order *)
+    match nth_error (rev (commits (gflow n (pp_g ps) (pa e)))) (count_ic (pa e) (pp_ic ps)) with
+    | Some x => if pseq x =? pb e then Some {| pp_cur := pp_cur ps; pp_g := pp_g ps; pp_ic := pa e :: pp_ic ps |} else None
+    | None => None
     end
   else Some ps.
 
@@ -525,7 +533,7 @@ Definition lts_ok (atomic : bool) (c : pcfg) (es : list pentry) : bool * sx :=
                     else run_flows (p_actions c) (p_outkind c =? 0) {| fl_cur := []; fl_st := [] |} es 0 in
   let '(n5, ok5) := run_charged cinit es 0 in
   let '(n6, ok6) := if (1 <=? p_outkind c) && negb (p_spread c) && negb (p_deadq c)
-                    then run_pipe cm (p_actions c) {| pp_cur := []; pp_g := ginit cm |} es 0 else (0, true) in
+                    then run_pipe cm (p_actions c) {| pp_cur := []; pp_g := ginit cm; pp_ic := [] |} es 0 else (0, true) in
   (ok && negb (scrashed t) && ok1 && ok2 && negb (crashed s1) && negb (crashed s2) && ok3 && ok4 && ok5 && ok6,
    SL [SL [of_bool ok; SZ n; of_bool (scrashed t)]; summary n1 s1 ok1; summary n2 s2 ok2; SL [of_bool ok3; SZ n3]; SL [of_bool ok4; SZ n4]; SL [of_bool ok5; SZ n5];
        SL [of_bool ok6; SZ n6]]).
